@@ -90,12 +90,39 @@ def growth(rng, table):
         if rng.random() < 0.3: yield "@setz %x %s" % (rng.randrange(6), hx(rng.choice(specials)))
     yield "@done"
 
+def limb_access(rng):
+    """limb-level access (mpz_limbs_write/modify/finish, init_set family, default precision changes) mixed with ordinary calls"""
+    yield "@reset"
+    for k in range(6): yield "@setz %x %s" % (k, hx(apigen.fz(rng)))
+    for k in range(3):
+        p, s, e, l = apigen.ff(rng, prec=rng.choice([2, 5, 9])); yield "@setf %x %x %s %s %s" % (k, p, hx(s), hx(e), vec(l))
+    for _ in range(rng.randrange(6, 25)):
+        c = rng.random()
+        if c < 0.45:
+            n = rng.randrange(1, 7); l = rand_limbs(rng, n, rng.choice(["uniform", "sparse", "zero", "lowbit", "top"]))
+            z = rng.choice([0, 0, 1, 2])                       # zero high limbs that finish must strip
+            for i in range(min(z, n)): l[n - 1 - i] = 0
+            size = rng.randrange(0, n + 1) * rng.choice([1, -1])
+            yield "@limbs %x %x %x %s %s" % (rng.randrange(6), rng.randrange(2), n, vec(l), hx(size))
+        elif c < 0.6: yield "@defprec %x" % rng.choice([53, 64, 65, 128, 200, 512])
+        elif c < 0.8:
+            kind = rng.randrange(6)
+            if kind in (0, 3):
+                d = rng.randrange(6 if kind == 0 else 3); s = (d + 1 + rng.randrange((6 if kind == 0 else 3) - 1)) % (6 if kind == 0 else 3)
+                yield "@init_set %x %x %x" % (kind, d, s)
+            elif kind in (1, 4): yield "@init_set %x %x %x" % (kind, rng.randrange(6 if kind == 1 else 3), rng.choice([0, 1, M, 1 << 63]))
+            else: yield "@init_set %x %x %s" % (kind, rng.randrange(6 if kind == 2 else 3), hx(rng.choice([0, -1, 1, -(1 << 63), (1 << 63) - 1])))
+        else:
+            yield "@call %s %x %x %x" % (sbytes(rng.choice(["mpz_add", "mpz_mul", "mpz_sub"])), rng.randrange(6), rng.randrange(6), rng.randrange(6))
+    yield "@done"
+
 def gen_ops(rng, tier, ctx=None):
     build = ctx.build if ctx else vlib.REPO
     table, _ = apigen.table(build)
     nl, nc = (300, 400) if tier == "quick" else (3000, 6000)
     for _ in range(nl): yield from lifecycle(rng)
     for _ in range(nl): yield from growth(rng, table)
+    for _ in range(nl): yield from limb_access(rng)
     for _ in range(nc): yield from calls(rng, table, rng.randrange(5, 60))
 
 def nontrivial(line):
